@@ -196,6 +196,10 @@ func Decorate(tokens []string, r *core.Rng) string {
 			if g == "" && needGap(tokens[i-1], t) {
 				g = " "
 			}
+			// a '/' token directly followed by a comment would itself open a comment ("//", "/*")
+			if strings.HasSuffix(tokens[i-1], "/") && strings.HasPrefix(g, "/") {
+				g = " " + g
+			}
 			b.WriteString(g)
 		}
 		b.WriteString(t)
